@@ -325,6 +325,12 @@ func (*Ufs) Walk(req *SrvReq) {
 		path = p
 	}
 
+	if i < len(tc.Wname) && req.Newfid == req.Fid {
+		/* partial walk in place: the fid stays where it is */
+		req.RespondRwalk(wqids[0:i])
+		return
+	}
+
 	nfid.path = path
 	req.RespondRwalk(wqids[0:i])
 }
